@@ -187,7 +187,16 @@ def evalSparse (st : DState) (name : String) (t : List String) (impl : String) :
           let mo' := match b.build with
             | .ok s => mo ++ [s!"conv:ok:{",".intercalate ((sparseC.ser s).map rWord)}"]
             | .fault _ => mo ++ ["conv:err"]
-          (mo', b, so ++ [if r.acc.length == r.cap then "conv:ok:*" else "conv:err"], r)
+          -- spec for a successful conversion: the implementation's own bytes must decode to exactly the accepted values
+          let implTok := implToks[so.length]?.getD ""
+          let content : Option (Nat × List Nat) :=
+            if implTok.startsWith "conv:ok:" then
+              match sparseC.load ((csvNats (implTok.drop 8).toString).map (BitVec.ofNat 64)) with
+              | .ok (v, _) => some (v.len, (List.range v.low.len).filterMap fun k => match v.select m k with | .ok (some p) => some p | _ => none)
+              | .fault _ => none
+            else none
+          let okTok := if content == some (r.n, r.acc) then implTok else s!"conv:ok:content-should-be-n={r.n},values={r.acc.length}"
+          (mo', b, so ++ [if r.acc.length == r.cap then okTok else "conv:err"], r)
         | _ => (mo ++ ["?"], b, so ++ ["?"], r)
       let (mo, _, so, r) := calls.foldl step ([sbObs b0], b0, [ref0.obs], ref0)
       { st := (st.note "sb.history").note (if r.acc.length == r.cap then "sb.full" else "sb.partial"),
